@@ -328,7 +328,8 @@ impl SimDriver {
                     continue;
                 }
                 let in_turn = next_in_order.is_none_or(|n| n == g.id || !matches!(g.kind, GateKind::Publish | GateKind::Proto));
-                if g.parked && g.opened.is_none() && !g.held && in_turn {
+                let conn_over = matches!(g.kind, GateKind::Publish | GateKind::Proto) && self.w.conn_done.borrow().get(g.conn).is_some_and(Option::is_some);
+                if g.parked && g.opened.is_none() && !g.held && in_turn && !conn_over {
                     acts.push((Act::OpenGate(g.id), 20));
                 }
                 if g.read_waiting && g.read_credit == 0 {
